@@ -21,7 +21,7 @@ KERNELS = ("view2_ends", "col_slice_int")
 RULE = ("cases = ragged shape with >= 1 non-empty row (exhaustive <=4 rows x <=3 cells + random up to 14 rows x 9 cells) x function "
         "(sum axis 0 via method / np.sum, mean axis 0, col_counts, get_column_values(j) for every j up to max length + 1) x dtype "
         "(bool, signed, unsigned, float; integers beyond 2**53); distinct = distinct (lengths, function, dtype); non-trivial = "
-        "at least two rows reach some column")
+        "at least two rows reach some column; plus long rows (hundreds of cells) and arrays of about 10**5 cells in tens of thousands of short rows")
 EXHAUSTIVE = {"quick": False, "thorough": False}
 CORRESPONDENCE_ONLY = ["dtype branches and result dtypes", "mean(axis=0)", "float summation order"]
 ASSUMPTIONS = []
